@@ -1,13 +1,16 @@
 """C16: the seven LinearCombination operators and evaluate_query_set."""
 from ..rules import algebra as R12
+from ..rules import lcsym as SYM
 from ..rules.serde import walk, locals_in, strip
 
 CONFIGS_QUICK = ["default"]
 CONFIGS_THOROUGH = ["default", "nopar", "r1cs"]
 
 EXPLANATION = (
-    "Static symbolic evaluation (R12) of the seven operator impls on LinearCombination over the compiler's resolved "
-    "HIR: each impl's effect on a (coefficient, label) pair is reduced to a normal form sign x product of atoms and "
+    "Static symbolic evaluation (R12) of the seven operator impls on LinearCombination over MIR (abstract "
+    "interpretation of the impl and of the local functions / closures it calls; syntax, delegation to another operator "
+    "and loop-vs-iterator form do not matter): each impl's effect on self.terms is reduced to append / push / update of "
+    "elements whose coefficient is a normal form sign x product of atoms and "
     "compared with the defining identity (+=(k,lc): k*c; -=(k,lc): -k*c; +=lc: c; -=lc: -c; +=k: push (k, One); -=k: "
     "push (-k, One); *=k: c*k), together with the shape facts that += / -= only extend or push (never drop, reorder or "
     "replace terms) and that labels are carried over unchanged. An operation outside the domain is reported as "
@@ -43,30 +46,53 @@ def rhs_kind(h):
 def run(rep, ctx, tier):
     f = ctx.facts
     found = {}
-    for h in f.hir.values():
-        if h.get("impl_self_adt") == LC and h.get("impl_trait") in ("std::ops::AddAssign", "std::ops::SubAssign", "std::ops::MulAssign"):
-            found[(h["impl_trait"], rhs_kind(h))] = h
+    for b in f.bodies.values():
+        if b.kind != "Closure" and b.self_adt == LC and b.impl_trait in ("std::ops::AddAssign", "std::ops::SubAssign", "std::ops::MulAssign") \
+                and len(b.locals) > 2:
+            ty = b.locals[2]["ty"] or ""
+            kind = "pair" if ty.startswith("(") else ("lc" if "LinearCombination" in ty else "scalar")
+            found[(b.impl_trait, kind)] = b
     for key, (form, coeff, label) in EXPECT.items():
-        h = found.get(key)
+        b = found.get(key)
         name = "%s<%s>" % (key[0].rsplit("::", 1)[-1], key[1])
-        if h is None:
+        if b is None:
             rep.add("R12", "%s:impl" % name, False, "operator impl %s for LinearCombination not found (fail closed)" % name, None)
             continue
-        a = R12.analyse_operator(h)
-        ok = a["coeff"] == coeff
+        try:
+            effects, special, escapes = SYM.analyse(f, b, key[1])
+            why = None
+        except SYM.Undecided as e:
+            effects, special, escapes, why = [], [], [], str(e)
+        want_kind = {"map": "APPEND", "copy": "APPEND", "push": "PUSH", "update": "UPDATE"}[form]
+        want_sc = ("sc", coeff[0], tuple(sorted(coeff[1])))
+        want_lab = ("lab", label[1][0])
+        got = effects[0] if len(effects) == 1 else None
+        if got is not None and got[0] == "UPDATE":
+            g_sc, g_lab = got[1], ("lab", "t")
+        elif got is not None and got[1] != SYM.UNKNOWN and got[1][0] == "elem":
+            g_sc, g_lab = got[1][1], got[1][2]
+        else:
+            g_sc = g_lab = SYM.UNKNOWN
+        shown = "; ".join(SYM.fmt_effect(e) for e in effects) or ("undecided: %s" % why if why else "no effect on self.terms")
+        ok = g_sc == want_sc
         rep.add("R12", "%s:coefficient" % name, ok,
-                "new coefficient = %s" % R12.fmt(a["coeff"]) if ok else
-                "new coefficient is %s, the defining identity requires %s" % (R12.fmt(a["coeff"]), R12.fmt(coeff)), h["span"])
-        okl = a["label"] == label
+                "new coefficient = %s" % SYM.fmt_scalar(g_sc) if ok else
+                "effect on self.terms is [%s], the defining identity requires coefficient %s" % (shown, SYM.fmt_scalar(want_sc)), b.span)
+        okl = g_lab == want_lab
         rep.add("R12", "%s:label" % name, okl,
-                "label carried over as %s" % R12.fmt(a["label"]) if okl else
-                "label becomes %s, expected %s" % (R12.fmt(a["label"]), R12.fmt(label)), h["span"])
-        allowed = GROWING | (UPDATING if form == "update" else set())
-        extra = [m for m in a["methods"] if m not in allowed]
-        oks = a["form"] == form and not extra
+                "label carried over as %s" % want_lab[1] if okl else
+                "effect on self.terms is [%s], expected label %s" % (shown, want_lab[1]), b.span)
+        oks = got is not None and got[0] == want_kind and not escapes and why is None
+        # a fast path for k == 1 / k == 0 must have the same meaning as the general path under that assumption
+        want_eff = [(want_kind, want_sc if want_kind == "UPDATE" else ("elem", want_sc, want_lab))]
+        for assumption, eff in special:
+            if SYM.specialise(eff, assumption) != SYM.specialise(want_eff, assumption):
+                oks = False
+                shown = "when the scalar is %s: %s" % (assumption, "; ".join(SYM.fmt_effect(e) for e in eff) or "nothing")
         rep.add("R12", "%s:shape" % name, oks,
                 "terms are only %s" % ("updated in place" if form == "update" else "appended") if oks else
-                "unexpected shape: form %s (expected %s), extra operations on the term list: %s" % (a["form"], form, extra), h["span"])
+                "unexpected shape: [%s]%s, expected exactly one %s" % (
+                    shown, ("; self escapes into " + escapes[0]) if escapes else "", want_kind.lower()), b.span)
     # evaluate_query_set
     h = None
     for x in f.hir.values():
